@@ -20,7 +20,7 @@ REQS = {
 # values the probes send
 PATHVAL = {"sid": "sv1", "p1": "pv1"}
 QVAL, HVAL, CVAL, BVAL, BINT = 4, "hv1", "cv1", "bv1", 4
-ATTR_OF = {"q1": "q1", "X-H1": "h1", "c1": "c1", "X-Key": "key"}
+ATTR_OF = {"q1": "qa1", "X-H1": "h1", "c1": "ca1", "X-Key": "key"}     # attribute names differ from the wire names everywhere
 
 
 def path_str(segs):
